@@ -79,6 +79,9 @@ def build_history(seed, tier):
     cfg = {'tracer': tracer, 'ref': True, 'ambient_trace': rc.random() < 0.3, 'allow_print': rc.random() < 0.15}
     if rc.random() < 0.12:
         cfg['sandbox_threaded'] = True       # sandbox-wide threaded mode: nested student imports get threads of their own
+    if rc.random() < 0.15:
+        # modules the instructor forbids (incl. ones pedal itself patches attributes of)
+        cfg['block_modules'] = rc.sample(['time', 'sys', 'math', 'random', 'json', 'os'], rc.randint(1, 2))
     return {'files': h['files'], 'ops': h['ops'], 'config': cfg,
             'meta': {'entry': 'history', 'tracer': tracer, 'seed': seed}}
 
